@@ -46,9 +46,9 @@ func ZZ_C12(shape int) {
 type zzOdd struct {
 	Name    string
 	Script  string
-	Vars    map[string]string    // concrete variable values
-	SymMon  map[string]string    // monetary variables with symbolic amount: name -> asset
-	SymBal  [][2]string          // (account, asset) with symbolic opening balance
+	Vars    map[string]string // concrete variable values
+	SymMon  map[string]string // monetary variables with symbolic amount: name -> asset
+	SymBal  [][2]string       // (account, asset) with symbolic opening balance
 	Meta    map[string]metadata.Metadata
 	DropVar string // variable left out of the map
 	AddVar  string // extraneous variable added
